@@ -4,8 +4,10 @@ Spec: spec/BuildIndep.tla (two-run fragment of History: Run(build) instantiates 
       CNModel / MajorModel / MinorModel with the SAME abstract catalogue and the SAME abstract
       evidence; evidence is indexed by variant id and region name; what transports it to a build
       is modelled explicitly: RegionOrder(build) and the anchor of a multi-base variant).
-  MC : spec/mc/MC_BuildIndep — BuildFree holds for Next and is violated with either named hazard
-       action enabled (MC_BuildIndep_genome_order.cfg, MC_BuildIndep_refseq_anchor.cfg).
+  MC : spec/mc/MC_BuildIndep — BuildFree holds for Next (MC_BuildIndep_quick.cfg; thorough: MC_BuildIndep.cfg
+       and MC_BuildIndep_three.cfg) and is violated with either named hazard action enabled
+       (MC_BuildIndep_genome_order.cfg, MC_BuildIndep_refseq_anchor.cfg); MC_BuildIndep_nonempty.cfg /
+       _fusion.cfg: probe invariants that must be violated (the explored tables do yield calls / fusions).
   (B): spec/trace/BuildTrace.tla validates FAMILIES of recorded runs: one abstract case (catalogue in
        RefSeq terms + evidence in RefSeq terms), one event per build with the real stage results
        projected to allele names and RefSeq notation.
@@ -642,20 +644,19 @@ def _spec_models(ctx, quick):
     jobs = [("mc/MC_BuildIndep_quick.cfg" if quick else "mc/MC_BuildIndep.cfg", None, "BuildFree holds for Next")] + HAZARDS
     if not quick:
         jobs.insert(1, ("mc/MC_BuildIndep_three.cfg", None, "BuildFree holds for Next (three-copy structure)"))
-        # per-action coverage on the small configuration only (-coverage makes the full one 50x slower)
-        jobs.insert(2, ("mc/MC_BuildIndep_quick.cfg", None, "per-action coverage"))
 
     def one(j):
+        # no -coverage: with the stage modules instantiated it makes TLC > 100x slower (30 min for the quick cfg);
+        # that every action fires is shown instead by the hazard / probe configurations (each must be violated)
         cfg, expect, what = j
-        r = tlc.run("mc/MC_BuildIndep", cfg, workers=6 if quick or expect else 16, timeout=3000, coverage=what == "per-action coverage")
+        r = tlc.run("mc/MC_BuildIndep", cfg, workers=6 if quick or expect else 16, timeout=3000)
         return j, r
 
     with concurrent.futures.ThreadPoolExecutor(max_workers=5 if quick else 2) as ex:
         for (cfg, expect, what), r in ex.map(one, jobs):
             ctx.states += r.distinct
             ctx.transitions += r.generated
-            ctx.mc_runs.append(dict(r.summary(), module="MC_BuildIndep", cfg=os.path.basename(cfg), expects=expect or "no violation", what=what,
-                                    actions={k: v for k, v in r.coverage.items() if k.startswith("BuildIndep!Run")} or None))
+            ctx.mc_runs.append(dict(r.summary(), module="MC_BuildIndep", cfg=os.path.basename(cfg), expects=expect or "no violation", what=what))
             if expect is None and not r.ok:
                 raise MachineryError(f"spec-level check MC_BuildIndep ({cfg}) failed: {r.violated}\n{r.error_text[:3000]}")
             if expect is not None and r.violated != expect:
@@ -728,7 +729,7 @@ def run(ctx):
         "catalogue, builds on opposite strands and different offsets; BuildFree for Next, violated with each hazard action. "
         "(B)(i) family = one database + one evidence table in RefSeq terms (planted 1-4 copies incl. fusions / partial alleles / extra copies; "
         "noise-free or multiplicative noise, dropped and spurious ops, region-depth noise) -> per build: independent transport, real "
-        "estimate_cn -> estimate_major (first 2 structures) -> estimate_minor (first 3 major solutions); all 37-38 shipped databases, the "
+        "estimate_cn -> estimate_major (first 2 structures) -> estimate_minor (first 3 major solutions); all 38 shipped databases (37 in quick: DPYD loads in 3 s), the "
         "toy gene (+/-), gen_db databases with opposite strands and different offsets. (ii) family = haplotypes simulated (tiled, same "
         "depth/read length) against each build + real genotype(). distinct = distinct family; non-trivial = a refined solution was reported."
     )
@@ -747,21 +748,21 @@ def run(ctx):
     ]
     # ---------------- implementation side
     tasks = []
-    for j in range(10 if quick else 40):
-        tasks.append((("toy",), rng.randrange(1 << 30), 16 if quick else 50, j % (2 if quick else 3) == 0))
-    for j in range(35 if quick else 300):
+    for j in range(10 if quick else 60):
+        tasks.append((("toy",), rng.randrange(1 << 30), 16 if quick else 60, j % (2 if quick else 3) == 0))
+    for j in range(35 if quick else 400):
         opts = GEN_OPTS[j % len(GEN_OPTS)]
-        tasks.append((("gen", rng.randrange(1 << 30), opts), rng.randrange(1 << 30), 7 if quick else 12, j % (2 if quick else 4) == 0))
+        tasks.append((("gen", rng.randrange(1 << 30), opts), rng.randrange(1 << 30), 7 if quick else 14, j % (2 if quick else 4) == 0))
     for n in genes.shipped_names():
         if n == "dpyd" and quick:
             continue
         big = n in ("cyp2d6", "cyp2a6", "dpyd", "ryr1")
-        for j in range(1 if quick else (3 if not big else 6)):
-            tasks.append((("shipped", n), rng.randrange(1 << 30), (3 if not big else 2) if quick else (10 if not big else 5), not big and j == 0))
+        for j in range(1 if quick else (4 if not big else 8)):
+            tasks.append((("shipped", n), rng.randrange(1 << 30), (3 if not big else 2) if quick else (12 if not big else 6), not big and j == 0))
     if quick:
         tasks += [(("shipped", "cyp2d6"), rng.randrange(1 << 30), 2, False), (("shipped", "cyp2a6"), rng.randrange(1 << 30), 2, True)]
     rtasks = []
-    for j in range(8 if quick else 60):
+    for j in range(8 if quick else 80):
         if j % 4 == 0:
             s = rng.choice([("+", "-"), ("-", "+")])
             rtasks.append((("toys", s[0], s[1], rng.randrange(40)), rng.randrange(1 << 30), 2 if quick else 4))
